@@ -22,6 +22,38 @@ Fixpoint fsplit_aux (sep : N) (l cur : bytes) : list bytes :=
 Definition fsplit (sep : N) (l : bytes) : list bytes := fsplit_aux sep l [].
 Definition fwords (l : bytes) : list bytes := filter (fun t => match t with [] => false | _ => true end) (fsplit 32 l).
 
+(* Wire.parse_spec with the linear splitting (a msgspec can carry a Text field of several kilobytes) *)
+Fixpoint fparse_spec_parts (l : list bytes) (sp : msgspec) : msgspec :=
+  match l with
+  | [] => sp
+  | [] :: l' => fparse_spec_parts l' sp
+  | (c :: rest) :: l' =>
+    let bad := mkSpec (ms_type sp) (ms_hdr sp) (ms_body sp) (ms_custom sp) (ms_noinc sp) false in
+    if c =? 99 then
+      match parse_num rest with
+      | Some n => fparse_spec_parts l' (mkSpec (ms_type sp) (ms_hdr sp) (ms_body sp) n (ms_noinc sp) (ms_ok sp))
+      | None => bad
+      end
+    else if c =? 110 then fparse_spec_parts l' (mkSpec (ms_type sp) (ms_hdr sp) (ms_body sp) (ms_custom sp) true (ms_ok sp))
+    else if c =? 72 then
+      match parse_fieldlist (fsplit 44 rest) with
+      | Some fl => fparse_spec_parts l' (mkSpec (ms_type sp) (ms_hdr sp ++ fl)%list (ms_body sp) (ms_custom sp) (ms_noinc sp) (ms_ok sp))
+      | None => bad
+      end
+    else if c =? 66 then
+      match parse_fieldlist (fsplit 44 rest) with
+      | Some fl => fparse_spec_parts l' (mkSpec (ms_type sp) (ms_hdr sp) (ms_body sp ++ fl)%list (ms_custom sp) (ms_noinc sp) (ms_ok sp))
+      | None => bad
+      end
+    else fparse_spec_parts l' sp
+  end.
+
+Definition fparse_spec (l : bytes) : msgspec :=
+  match fsplit 47 l with
+  | t :: parts => fparse_spec_parts parts (mkSpec t [] [] 0 false true)
+  | [] => mkSpec [] [] [] 0 false false
+  end.
+
 Inductive cspec :=
 | SSend (sp : msgspec)
 | SRef (sp : msgspec)
@@ -45,11 +77,11 @@ Fixpoint has_prefix (p l : bytes) : bool :=
 
 Definition parse_call (t : bytes) : cspec :=
   match t with
-  | 83 :: 58 :: rest => SSend (parse_spec rest)                        (* S: *)
-  | 80 :: 58 :: rest => SSend (parse_spec rest)                        (* P: *)
-  | 82 :: 58 :: rest => SRef (parse_spec rest)                         (* R: *)
-  | 66 :: 58 :: rest => SBatch (map parse_spec (fsplit 59 rest))       (* B: *)
-  | 67 :: 58 :: rest => SBatch (map parse_spec (fsplit 59 rest))       (* C: *)
+  | 83 :: 58 :: rest => SSend (fparse_spec rest)                        (* S: *)
+  | 80 :: 58 :: rest => SSend (fparse_spec rest)                        (* P: *)
+  | 82 :: 58 :: rest => SRef (fparse_spec rest)                         (* R: *)
+  | 66 :: 58 :: rest => SBatch (map fparse_spec (fsplit 59 rest))       (* B: *)
+  | 67 :: 58 :: rest => SBatch (map fparse_spec (fsplit 59 rest))       (* C: *)
   | _ => SBad
   end.
 
@@ -63,6 +95,10 @@ Definition parse_cop (l : bytes) : cop :=
   | name :: args =>
     if beq name k_CONC then CConc (map parse_prog (filter (fun t => negb (is_opt t)) args))
     else if beq name k_START then CPlain (parse_op l) (Some (existsb (beq k_pm_pipeline) args))
+    else if beq name [83;69;78;68] then                            (* SEND: Wire.parse_op's reading, linear *)
+      CPlain (match args with a :: _ => OSend (fparse_spec a) | _ => OBad end) None
+    else if beq name [66;65;84;67;72] then                         (* BATCH *)
+      CPlain (match args with a :: _ => OBatch (map fparse_spec (fsplit 59 a)) | _ => OBad end) None
     else CPlain (parse_op l) None
   | [] => CPlain (parse_op l) None
   end.
